@@ -92,6 +92,32 @@ def make_result(nfev=4):
         return optimize(scheme, verbose=False, raise_exception=True)
 
 
+def make_result_from_loaded_scheme(nfev=2):
+    """The scheme of this result was LOADED from a scheme file (its source_path points outside any result folder):
+    a saved result must still be self contained."""
+    import tempfile
+    from pathlib import Path
+    from glotaran.io import load_scheme, save_dataset, save_model, save_parameters, save_scheme
+    from glotaran.optimization.optimize import optimize
+    from glotaran.project import Scheme
+    model, parameters, ds = make_fixture()
+    start = parameters.copy()
+    start.get("rates.k1").value = 0.7
+    src = Path(tempfile.mkdtemp(prefix="verif_c17_schemesrc_"))
+    try:
+        save_model(model, src / "m.yml")
+        save_parameters(start, src / "p.csv")
+        save_dataset(ds, src / "d1.nc")
+        save_scheme(Scheme(model, start, {"d1": ds}, maximum_number_function_evaluations=nfev), src / "my_scheme.yml")
+        scheme = load_scheme(src / "my_scheme.yml")
+        with warnings.catch_warnings():
+            warnings.simplefilter("ignore")
+            return optimize(scheme, verbose=False, raise_exception=True)
+    finally:
+        import shutil
+        shutil.rmtree(src, ignore_errors=True)      # the source files are gone: the saved result must not need them
+
+
 # ------------------------------------------------------------------------------------------------ comparisons
 def float_bits_equal(a, b) -> bool:
     a = np.asarray(a)
